@@ -955,11 +955,12 @@ def r8_forward_fill_file_always_taken(repo=None):
     for n in ast.walk(kf):
         for ch in ast.iter_child_nodes(n):
             kpar[ch] = n
-    if lq == q or any(x is lp for x in ast.walk(kf)):
-        anchors = [x for x in ast.walk(kf) if isinstance(x, ast.For) and norm(ast.unparse(x.iter)) == norm(ast.unparse(lp.iter))
-                   and any(isinstance(c, ast.Call) and pyfront.call_name(c) == "os.listdir" for c in ast.walk(x))]
-        anchors = [a_ for a_ in anchors if not any(o is not a_ and any(y is a_ for y in ast.walk(o)) for o in anchors)] or anchors
-    else:
+    # the loop itself when it is (or was inlined) in the kernel - inlined copies keep their source position -, else the calls of
+    # the function that holds it
+    anchors = [x for x in ast.walk(kf) if isinstance(x, ast.For) and (x is lp or (
+        (getattr(x, "lineno", None), getattr(x, "col_offset", None)) == (lp.lineno, lp.col_offset)
+        and type(x.iter) is type(lp.iter)))]
+    if not anchors:
         anchors = [c for c in ast.walk(kf) if isinstance(c, ast.Call) and pyfront.call_name(c) == lq]
     guards = []
     for a_ in anchors:
